@@ -188,3 +188,150 @@ func init() {
 		return nil
 	}
 }
+
+// ---------------------------------------------------------------------
+// timers: time.NewTimer returns a timer whose channel receives a value only
+// when the harness fires it (vFireTimer), which the harness may do at any
+// schedule point - i.e. a timer may fire at an arbitrary moment, but (stub
+// contract) never while its duration is <= 0 is the only case in which it is
+// ready at once.
+
+type timerRec struct {
+	ch      *gchan
+	stopped bool
+}
+
+var activeTimers []*timerRec
+
+func init() {
+	externals["time.NewTimer"] = func(fr *frame, a []value) value {
+		usedIntrinsics["time.NewTimer(fires when the harness environment says so)"]++
+		ch := makeChan(1)
+		tr := &timerRec{ch: ch}
+		old := activeTimers
+		trailUndo(func() { activeTimers = old })
+		activeTimers = append(append([]*timerRec{}, activeTimers...), tr)
+		if d, ok := a[0].(int64); ok && d <= 0 {
+			ch.send(structure{uint64(0), int64(0), (*value)(nil)})
+		}
+		// time.Timer{C <-chan Time, initTimer bool}
+		v := value(structure{ch, true})
+		timerOf[&v] = tr
+		return &v
+	}
+	externals["(*time.Timer).Stop"] = func(fr *frame, a []value) value {
+		if tr := timerOf[a[0].(*value)]; tr != nil {
+			was := !tr.stopped && len(tr.ch.buf) == 0
+			tr.stopped = true
+			return was
+		}
+		return false
+	}
+	externals["time.After"] = func(fr *frame, a []value) value {
+		ch := makeChan(1)
+		tr := &timerRec{ch: ch}
+		activeTimers = append(append([]*timerRec{}, activeTimers...), tr)
+		return ch
+	}
+	externals[hpkg+"vFireTimer"] = func(fr *frame, a []value) value {
+		for i := len(activeTimers) - 1; i >= 0; i-- {
+			tr := activeTimers[i]
+			if !tr.stopped && len(tr.ch.buf) == 0 {
+				tr.ch.send(structure{uint64(0), int64(0), (*value)(nil)})
+				return true
+			}
+		}
+		return false
+	}
+	externals[hpkg+"vActiveTimers"] = func(fr *frame, a []value) value {
+		n := 0
+		for _, tr := range activeTimers {
+			if !tr.stopped && len(tr.ch.buf) == 0 {
+				n++
+			}
+		}
+		return n
+	}
+}
+
+var timerOf = map[*value]*timerRec{}
+
+// schedule points of the blocking protocol: entry of the functions that take
+// the database lock (the native replay inserts vSched at the same places)
+var schedPointFuncs = map[string]bool{
+	"(*github.com/jimsnab/go-redisemu.dataStoreCommand).lock":             true,
+	"(*github.com/jimsnab/go-redisemu.dataStoreCommand).acquireExclusive": true,
+	"(*github.com/jimsnab/go-redisemu.dataStore).enterListBlock":          true,
+	"(*github.com/jimsnab/go-redisemu.dataStore).enterListMultiBlock":     true,
+	"(*github.com/jimsnab/go-redisemu.dataStore).leaveListBlock":          true,
+}
+
+func init() {
+	// vRunBlocking(f) runs the strand under test; returns true when it ended
+	// parked forever (nothing ready and the environment has no more steps)
+	externals[hpkg+"vRunBlockingOn"] = func(fr *frame, a []value) (res value) {
+		defer func() {
+			if r := recover(); r != nil {
+				if pe, ok := r.(pathEnd); ok && pe.kind == "blocked" {
+					theEx.envHook = nil
+					res = true
+					return
+				}
+				panic(r)
+			}
+		}()
+		call(fr.i, fr, fr.callpos, a[1], nil)
+		theEx.envHook = nil
+		return false
+	}
+	externals[hpkg+"vReleaseWaiter"] = func(fr *frame, a []value) value { return nil }
+}
+
+func init() {
+	externals["internal/bytealg.IndexByteString"] = func(fr *frame, a []value) value {
+		if s, ok := goString(a[0]); ok {
+			if c, ok := a[1].(uint8); ok {
+				return strings.IndexByte(s, c)
+			}
+		}
+		cells, ok := strCells(a[0])
+		if !ok {
+			theEx.unsupported("IndexByteString on opaque text")
+		}
+		for i, c := range cells {
+			if theEx.decide(mkEq(byteTerm(c), toTermLike(a[1], 8)), "indexbyte") {
+				return i
+			}
+		}
+		return -1
+	}
+	externals["internal/bytealg.IndexByte"] = func(fr *frame, a []value) value {
+		cells, ok := a[0].([]value)
+		if !ok {
+			theEx.unsupported("IndexByte on opaque bytes")
+		}
+		for i, c := range cells {
+			if theEx.decide(mkEq(byteTerm(c), toTermLike(a[1], 8)), "indexbyte") {
+				return i
+			}
+		}
+		return -1
+	}
+	externals["internal/bytealg.CountString"] = func(fr *frame, a []value) value {
+		if s, ok := goString(a[0]); ok {
+			if c, ok := a[1].(uint8); ok {
+				return strings.Count(s, string(rune(c)))
+			}
+		}
+		theEx.unsupported("CountString on symbolic text")
+		return nil
+	}
+}
+
+func init() {
+	externals["time.initLocal"] = func(fr *frame, a []value) value { return nil }
+	externals["(time.Time).Format"] = func(fr *frame, a []value) value {
+		usedIntrinsics["(time.Time).Format(empty text: only used in log lines)"]++
+		return ""
+	}
+}
